@@ -24,6 +24,9 @@ def run_source(src):
     if not os.path.exists(f):
         with open(f, 'w', encoding='utf-8') as fh:
             fh.write(docgen.SED)
+        for name, data in (('zz-empty.tex', b''), ('zz-comment.tex', b'% only a comment\n'), ('zz-latin1.tex', b'\\newcommand{\\zzl}{gr\xf6\xdfer}\n')):
+            with open(os.path.join(d, name), 'wb') as fh:
+                fh.write(data)
     with watchdog(20):
         (plain, pos), err = sut.tex2txt(src, **OPTS)
     return plain, list(pos), err
